@@ -494,9 +494,11 @@ class Sim:
         self.sig.append((t.i, t.label, name, line) if offset is None else (t.i, t.label, name, line, offset))
         self.pairs.add((name, o.where))
         t.where = name
-        self.cur = o
-        o.sem.release()
-        t.sem.acquire()
+        from .locks import harness
+        with harness():                 # the semaphores are the harness's own: never simulated
+            self.cur = o
+            o.sem.release()
+            t.sem.acquire()
 
     def boundary(self, t, label):
         """An explicit yield point between operations of a client (counts as one step)."""
